@@ -55,7 +55,7 @@ var plans = map[string]plan{
 	"C01": {Variants: append(stdVariants("base"), stdVariants("gang")[1], stdVariants("gang")[3], gangSwap), QuickRuns: 400, QuickSecs: 70, ThoroughRuns: 40000, ThoroughSecs: 1500},
 	"C02": {Variants: append(stdVariants("quota"), stdVariants("base")[0], stdVariants("gang")[1], gangSwap, reloadVariants("quota")[0], reloadVariants("quota")[1]), QuickRuns: 400, QuickSecs: 70, ThoroughRuns: 40000, ThoroughSecs: 1500},
 	"C03": {Variants: append(append(stdVariants("base"), stdVariants("gang")...), gangSwap), QuickRuns: 400, QuickSecs: 70, ThoroughRuns: 40000, ThoroughSecs: 1500},
-	"C04": {Variants: append(stdVariants("base"), stdVariants("gang")...), QuickRuns: 400, QuickSecs: 70, ThoroughRuns: 40000, ThoroughSecs: 1500},
+	"C04": {Variants: append(append(stdVariants("base"), stdVariants("gang")...), gangSwap), QuickRuns: 400, QuickSecs: 70, ThoroughRuns: 40000, ThoroughSecs: 1500},
 	"C05": {Variants: append(append(append(stdVariants("limits"), stdVariants("quota")[0]), reloadVariants("limits")...), stdVariants("gang")[1], stdVariants("gang")[2]), QuickRuns: 400, QuickSecs: 70, ThoroughRuns: 40000, ThoroughSecs: 1500},
 	"C15": {Variants: append(reloadVariants("quota"), reloadVariants("limits")...), QuickRuns: 400, QuickSecs: 70, ThoroughRuns: 40000, ThoroughSecs: 1500},
 	"C16": {Variants: append(append(reloadVariants("quota"), reloadVariants("limits")...), reloadVariants("base")...), QuickRuns: 400, QuickSecs: 70, ThoroughRuns: 40000, ThoroughSecs: 1500},
@@ -89,6 +89,6 @@ var plans = map[string]plan{
 	"C17": {Variants: append(append(stdVariants("place")[:2:2], reloadVariants("place")...), stdVariants("quota")[0], stdVariants("maxapps")[0]), QuickRuns: 400, QuickSecs: 70, ThoroughRuns: 40000, ThoroughSecs: 1500},
 	"C19": {Variants: append(append(stdVariants("sort")[:3:3], stdVariants("preempt")[0]), stdVariants("quota")[0], reloadVariants("sort")[0]), QuickRuns: 400, QuickSecs: 70, ThoroughRuns: 40000, ThoroughSecs: 1500},
 	"C09": {Variants: append(stdVariants("base"), stdVariants("gang")[1], stdVariants("gang")[2], stdVariants("gang")[5], preemptVariants()[0], preemptVariants()[1]), QuickRuns: 400, QuickSecs: 70, ThoroughRuns: 40000, ThoroughSecs: 1500},
-	"C10": {Variants: append(stdVariants("base"), stdVariants("gang")...), QuickRuns: 400, QuickSecs: 70, ThoroughRuns: 40000, ThoroughSecs: 1500},
+	"C10": {Variants: append(append(stdVariants("base"), stdVariants("gang")...), gangSwap), QuickRuns: 400, QuickSecs: 70, ThoroughRuns: 40000, ThoroughSecs: 1500},
 	"C11": {Variants: append(stdVariants("maxapps"), reloadVariants("maxapps")[0], reloadVariants("maxapps")[1]), QuickRuns: 400, QuickSecs: 70, ThoroughRuns: 40000, ThoroughSecs: 1500},
 }
